@@ -166,15 +166,22 @@ void h_reach(void) {
                 functions={"is_bfs_reachable": "bounded(n<=3)"}, trusted=["cbmc 6.11 SAT back end"])
 
 
-def _fresh(text):
-    """cbmc wants a distinct bound-variable name per quantifier inside one function: ALLV(v, ...) -> ALLV(v17, ...)"""
+def _fresh(text, _k=None):
+    """cbmc wants a distinct bound-variable name per quantifier inside one function: ALLV(v, ...) -> ALLV(v_17, ...);
+    nested quantifier macros (ALLx / EXx) are renamed recursively."""
     import re
-    out, i, k = "", 0, [0]
-    pat = re.compile(r"ALL([VPWSK])\((\w+), ")
+    k = _k if _k is not None else [0]
+    out, i = "", 0
+    pat = re.compile(r"\b((?:ALL|EX)[A-Z0-9]+)\((\w+), ")
     while True:
         m = pat.search(text, i)
         if not m:
             return out + text[i:]
+        ls = text.rfind("\n", 0, m.start()) + 1
+        if text[ls:m.start()].lstrip().startswith("#define"):      # a macro definition, not a use
+            out += text[i:m.end()]
+            i = m.end()
+            continue
         j = m.end()
         depth, e = 1, j
         while depth:
@@ -184,13 +191,10 @@ def _fresh(text):
             e += 1
         k[0] += 1
         name = "%s_%d" % (m.group(2), k[0])
-        inner = re.sub(r"\b%s\b" % m.group(2), name, _fresh_inner(text[j:e - 1]))
-        out += text[i:m.start()] + "ALL%s(%s, %s)" % (m.group(1), name, inner)
+        inner = _fresh(text[j:e - 1], k)
+        inner = re.sub(r"\b%s\b" % m.group(2), name, inner)
+        out += text[i:m.start()] + "%s(%s, %s)" % (m.group(1), name, inner)
         i = e
-
-
-def _fresh_inner(t):
-    return t          # quantifiers are not nested in this unit
 
 
 def _unit(bounded, maxn):
